@@ -463,7 +463,7 @@ func genRound(r *vproto.Rng, par [2]int, kind string, layout int, i int) *rtwire
 		}
 		cx, cy = c, c
 	} else {
-		big := func() float64 { return float64(uint64(1)<<52) + float64(r.Intn(4)) }
+		big := func() float64 { return float64(uint64(1)<<52) + float64(r.Intn(4+2*(i%2))) }
 		small := func() float64 { return float64(r.Range(-40, 40)) / 8 }
 		cx, cy = small, big
 		if layout == 3 {
@@ -821,7 +821,7 @@ func gen(seed uint64, tier string) []*rtwire.Hist {
 	}
 	for i := 0; i < nround; i++ {
 		par := [][2]int{{2, 4}, {2, 3}, {2, 5}, {3, 6}, {4, 8}, {3, 7}}[i%6]
-		hs = append(hs, genRound(r, par, rtwire.Kinds[(i/6)%3], []int{0, 1, 2, 0, 3, 1}[(i/2)%6], i))
+		hs = append(hs, genRound(r, par, rtwire.Kinds[(i/6)%3], []int{0, 2, 1, 3, 0, 2, 3, 1}[(i/2)%8], i))
 	}
 	return hs
 }
